@@ -34,6 +34,23 @@ var soupPool = []string{
 // Mutation applies 1..3 drawn operators to the token list / rendered bytes and reports their labels.
 // The result is only *probably* invalid: the check recomputes validity with the oracle.
 func Mutate(t *rapid.T, toks []Tok) ([]byte, []string) {
+	return MutateWith(t, toks, JSONPools)
+}
+
+// Pools parametrises the mutator for a concrete syntax (JSON here, the text format in C26).
+type Pools struct {
+	Numbers, Strings, Literals, Structure, Tails, Heads []string
+	Join                                                func(*rapid.T, []Tok) []byte
+}
+
+var JSONPools = Pools{
+	Numbers: BadNumbers, Strings: BadStrings, Literals: BadLiterals, Structure: structurePool,
+	Tails: []string{"}", "]", " x", ",", "{}", "null", "//c", "\x00", "\xef\xbb\xbf", " 1", "\"", "\n\n0"},
+	Heads: []string{"\xef\xbb\xbf", "\x00", ",", "x", ")]}'\n", " ", "\x0b", "\x0c"},
+	Join:  Join,
+}
+
+func MutateWith(t *rapid.T, toks []Tok, p Pools) ([]byte, []string) {
 	var labels []string
 	n := rapid.IntRange(1, 3).Draw(t, "nmut")
 	toks = append([]Tok(nil), toks...)
@@ -63,20 +80,20 @@ func Mutate(t *rapid.T, toks []Tok) ([]byte, []string) {
 				i = idx("nql")
 			}
 			if i >= 0 {
-				toks[i] = Tok{rapid.SampledFrom(BadNumbers).Draw(t, "badnum"), 'x', false}
+				toks[i] = Tok{rapid.SampledFrom(p.Numbers).Draw(t, "badnum"), 'x', false}
 				labels = append(labels, "mut-badnumber")
 			}
 		case 3, 4: // hostile string (values and names)
 			if i := idx("qk"); i >= 0 {
-				toks[i] = Tok{rapid.SampledFrom(BadStrings).Draw(t, "badstr"), 'x', false}
+				toks[i] = Tok{rapid.SampledFrom(p.Strings).Draw(t, "badstr"), 'x', false}
 				labels = append(labels, "mut-badstring")
 			} else if i := idx("nl"); i >= 0 {
-				toks[i] = Tok{rapid.SampledFrom(BadStrings).Draw(t, "badstr"), 'x', false}
+				toks[i] = Tok{rapid.SampledFrom(p.Strings).Draw(t, "badstr"), 'x', false}
 				labels = append(labels, "mut-badstring")
 			}
 		case 5: // hostile literal
 			if i := idx("lnq"); i >= 0 {
-				toks[i] = Tok{rapid.SampledFrom(BadLiterals).Draw(t, "badlit"), 'x', false}
+				toks[i] = Tok{rapid.SampledFrom(p.Literals).Draw(t, "badlit"), 'x', false}
 				labels = append(labels, "mut-badliteral")
 			}
 		case 6: // delete a token
@@ -95,12 +112,12 @@ func Mutate(t *rapid.T, toks []Tok) ([]byte, []string) {
 			}
 		case 9: // insert structural noise
 			i := rapid.IntRange(0, len(toks)).Draw(t, "ins")
-			x := Tok{rapid.SampledFrom(structurePool).Draw(t, "noise"), 'x', false}
+			x := Tok{rapid.SampledFrom(p.Structure).Draw(t, "noise"), 'x', false}
 			toks = append(toks[:i:i], append([]Tok{x}, toks[i:]...)...)
 			labels = append(labels, "mut-insert-structure")
 		case 10: // replace punctuation
 			if i := idx("p"); i >= 0 {
-				toks[i] = Tok{rapid.SampledFrom(structurePool).Draw(t, "punct"), 'x', false}
+				toks[i] = Tok{rapid.SampledFrom(p.Structure).Draw(t, "punct"), 'x', false}
 				labels = append(labels, "mut-replace-punct")
 			}
 		case 11: // value directly after value (missing comma) / trailing comma
@@ -128,7 +145,7 @@ func Mutate(t *rapid.T, toks []Tok) ([]byte, []string) {
 			byteOps++
 		}
 	}
-	b := Join(t, toks)
+	b := p.Join(t, toks)
 	for ; byteOps > 0; byteOps-- {
 		switch rapid.IntRange(0, 4).Draw(t, "byteop") {
 		case 0: // truncate
@@ -137,10 +154,10 @@ func Mutate(t *rapid.T, toks []Tok) ([]byte, []string) {
 				labels = append(labels, "mut-truncate")
 			}
 		case 1: // trailing garbage
-			b = append(b, rapid.SampledFrom([]string{"}", "]", " x", ",", "{}", "null", "//c", "\x00", "\xef\xbb\xbf", " 1", "\"", "\n\n0"}).Draw(t, "tail")...)
+			b = append(b, rapid.SampledFrom(p.Tails).Draw(t, "tail")...)
 			labels = append(labels, "mut-trailing-garbage")
 		case 2: // leading garbage
-			b = append([]byte(rapid.SampledFrom([]string{"\xef\xbb\xbf", "\x00", ",", "x", ")]}'\n", " ", "\x0b", "\x0c"}).Draw(t, "head")), b...)
+			b = append([]byte(rapid.SampledFrom(p.Heads).Draw(t, "head")), b...)
 			labels = append(labels, "mut-leading-garbage")
 		case 3: // overwrite one byte
 			if len(b) > 0 {
